@@ -5,7 +5,7 @@
 From Coq Require Import List ZArith NArith Bool.
 Require Import Mixin.Base.Res Mixin.Model.Topology.
 Import ListNotations.
-Open Scope N_scope.
+Local Open Scope N_scope.
 
 Inductive topx :=
 | XWriteAt (pos hash : N) (obs : N)             (* WriteSnapshot at a chosen position: 0 ok, 1 error, 2 panic *)
